@@ -288,7 +288,7 @@ def repr_invariant_goals(c, name, op, _depth=0, _path="result"):
 
     if _depth > 6 or not isinstance(op, LinearOperator):
         return
-    if isinstance(op, TriangularLinearOperator):
+    if isinstance(op, TriangularLinearOperator) and hasattr(op, "_tensor"):  # (the diagonal family subclasses Triangular without a _tensor: triangular either way)
         try:
             Dn = D(op._tensor) if isinstance(op._tensor, LinearOperator) else op._tensor
         except Exception:  # noqa
@@ -310,17 +310,20 @@ def install_repr_invariants(op, _depth=0):
 
     if _depth > 6 or not isinstance(op, LinearOperator):
         return
-    if isinstance(op, TriangularLinearOperator):
+    if isinstance(op, TriangularLinearOperator) and hasattr(op, "_tensor"):
         t = op._tensor
         while isinstance(t, LinearOperator) and len(t._args) == 1 and type(t).__name__ == "DenseLinearOperator":
             t = t._args[0]
         st = getattr(t, "storage", None)
-        if st is not None and not getattr(st, "_tri_inv", False):
+        inv, fwd = getattr(t, "_inv", None), getattr(t, "_fwd", None)
+        if st is not None and not getattr(st, "_tri_inv", False) and (inv is not None or fwd is None):
             old, upper = st.elem, bool(op.upper)
 
-            def elem(idx, old=old, upper=upper):
-                r, cc = O.ix(idx[-2]), O.ix(idx[-1])
-                return z3.If((cc < r) if upper else (cc > r), z3.RealVal(0), old(idx))
+            def elem(idx, old=old, upper=upper, inv=inv):
+                # the triangle is a property of the VIEW the operator wraps (e.g. a transposed view of the caller's tensor)
+                cond, vidx = (z3.BoolVal(True), idx) if inv is None else inv(tuple(idx))
+                r, cc = O.ix(vidx[-2]), O.ix(vidx[-1])
+                return z3.If(z3.And(cond, (cc < r) if upper else (cc > r)), z3.RealVal(0), old(idx))
             st.elem = elem
             st._tri_inv = True
     for a in op._args:
